@@ -87,7 +87,7 @@ def theorems_of(module):
     return names, examples
 
 
-def prove(pid, modules):
+def prove(pid, modules, tier="quick"):
     """build the property theorems and audit their axioms.
     returns (obligations, discharged, theorem_names, broken list, axioms used)"""
     broken = []
@@ -131,6 +131,12 @@ def prove(pid, modules):
                     extra = set(axioms[n]) - ALLOWED_AXIOMS
                     if extra:
                         broken.append(Broken(f"audit.{n}", f"depends on {sorted(extra)}"))
+    if tier == "thorough" and not broken:
+        # independent re-check of the compiled proofs by the toolchain's external checker
+        for m in modules:
+            rc, out = pl.sh(["lake", "env", "leanchecker", m], cwd=pl.LEAN, timeout=3600)
+            if rc != 0:
+                broken.append(Broken(f"leanchecker.{m}", out[-3000:]))
     obligations = len(names) + examples
     discharged = obligations if not broken else 0
     return obligations, discharged, names, broken, axioms
@@ -234,7 +240,7 @@ def run(pid, tier, seed, replay=None):
     thm_names, axioms = [], {}
     if not (fatal and fatal.obligation in ("translate", "model.build")):
         t0 = time.time()
-        obligations, discharged, thm_names, b2, axioms = prove(pid, prop.LEAN_MODULES)
+        obligations, discharged, thm_names, b2, axioms = prove(pid, prop.LEAN_MODULES, tier)
         broken += b2
         timings["prove"] = time.time() - t0
     cases, hist = [], {}
@@ -260,9 +266,15 @@ def run(pid, tier, seed, replay=None):
                             cases.append(Case(be, "replay", line, io, mo, v))
                             print(f"replay {be}: {line}\n  impl  : {io}\n  model : {mo}\n  oracle: {v}")
             else:
-                cases, hist = correspond(prop, tier, seed, backends)
+                # code the model transcribes has changed since the model was written: look deeper
+                import fingerprint
+                touched, touched_names = fingerprint.changed_properties(pl.REPO, VERIF)
+                gen_tier = "thorough" if (pid in touched and tier == "quick") else tier
+                if gen_tier != tier:
+                    timings["escalated_because_changed"] = touched_names
+                cases, hist = correspond(prop, gen_tier, seed, backends)
                 if hasattr(prop, "extra"):
-                    extra_cov, extra_fail, extra_broken = prop.extra(tier, seed)
+                    extra_cov, extra_fail, extra_broken = prop.extra(gen_tier, seed)
                     broken += extra_broken
         except Broken as b:
             broken.append(b)
